@@ -188,4 +188,264 @@ theorem C15_spans_disjoint (cfg : Cfg) (hd : cfg.d ≠ .go) (src : Array UInt8) 
     (scan cfg src).toks.Pairwise (fun a b => ∀ i, ¬(a.pos ≤ i ∧ i < a.stop ∧ b.pos ≤ i ∧ i < b.stop)) := by
   exact (C15_spans_ordered cfg hd src).2.imp (fun h i ⟨_, h2, h3, _⟩ => by omega)
 
+/-! ## the byte-order mark -/
+
+theorem decodeRune_bom (src : Array UInt8) (i : Nat) (h : (decodeRune src i).1 = bomCh) :
+    (decodeRune src i).2 = 3 ∧ byteAt src i = 0xEF ∧ byteAt src (i + 1) = 0xBB ∧ byteAt src (i + 2) = 0xBF := by
+  have hb := fun j => byteAt_lt src j
+  have h0 := hb i; have h1 := hb (i + 1); have h2 := hb (i + 2); have h3 := hb (i + 3)
+  generalize hr : decodeRune src i = r at h ⊢
+  unfold decodeRune at hr
+  simp only [] at hr
+  repeat' split at hr
+  all_goals (subst hr; simp only [bomCh, runeError] at h ⊢)
+  all_goals (first | omega | (refine ⟨trivial, ?_, ?_, ?_⟩ <;> omega))
+
+/-- `Init` starts scanning at offset 0, or at offset 3 behind a byte-order mark `EF BB BF` -/
+theorem C15_init_offset (src : Array UInt8) :
+    (initSt src).off = 0 ∨
+    ((initSt src).off = 3 ∧ byteAt src 0 = 0xEF ∧ byteAt src 1 = 0xBB ∧ byteAt src 2 = 0xBF) := by
+  unfold initSt
+  simp only []
+  split
+  · rename_i hbom
+    right
+    rw [next_ch] at hbom
+    simp only at hbom
+    split at hbom
+    · rename_i hsz
+      split at hbom
+      · simp only [bomCh] at hbom; omega
+      · have := decodeRune_bom src 0 hbom
+        have hw := decodeRune_width src 0 hsz
+        refine ⟨?_, this.2.1, by simpa using this.2.2.1, by simpa using this.2.2.2⟩
+        rw [next_off, next_rdOff]
+        simp only [hsz, if_true]
+        rename_i hb
+        simp only [hb, if_false, this.1]
+        split <;> omega
+    · simp [bomCh, eofCh] at hbom
+  · left
+    rw [next_off]
+    simp only
+    split <;> omega
+
+
+/-! ## the text property, kind by kind -/
+
+/-- keyword codes lie strictly between keyword_beg and keyword_end -/
+theorem keyword_code_range (d : Dialect) (hd : d ≠ .go) {l : List UInt8} {k : Nat}
+    (h : (codes d).keywords.lookup l = some k) : Tokens.XGo.keyword_beg < k ∧ k < Tokens.XGo.keyword_end ∧ d = .xgo := by
+  cases d
+  · have hall : (xgoCodes.keywords.all fun e => decide (Tokens.XGo.keyword_beg < e.2) && decide (e.2 < Tokens.XGo.keyword_end)) = true := by
+      decide +kernel
+    have := (List.all_eq_true.mp hall) _ (mem_of_lookup' h)
+    simp only [Bool.and_eq_true, decide_eq_true_eq] at this
+    exact ⟨this.1, this.2, rfl⟩
+  · simp [codes, tplCodes] at h
+  · exact absurd rfl hd
+
+/-- Every token of the classes named in C15, with its text:
+* identifier, keyword, INT/FLOAT/IMAG/RAT, UNIT, CHAR: the literal is exactly the source span,
+  which is not empty;
+* STRING, COMMENT: the literal is the source span up to carriage returns (exactly the span when
+  it contains none);
+* CSTRING / PYSTRING (xgo): one / two prefix bytes, then the literal is exactly the rest;
+* operators and delimiters (every token reported by `IsOperator` except an inserted `;`): the
+  spelling of the token is exactly the source span. -/
+theorem C15_text_by_kind (cfg : Cfg) (hd : cfg.d ≠ .go) (src : Array UInt8) (t : Token)
+    (ht : t ∈ (scan cfg src).toks) :
+    ((t.kind = (codes cfg.d).IDENT ∨ t.kind = (codes cfg.d).INT ∨ t.kind = (codes cfg.d).FLOAT ∨
+        t.kind = (codes cfg.d).IMAG ∨ t.kind = (codes cfg.d).RAT ∨ t.kind = (codes cfg.d).UNIT ∨
+        t.kind = (codes cfg.d).CHAR ∨ (∃ l, (codes cfg.d).keywords.lookup l = some t.kind)) →
+      t.pos < t.stop ∧ t.lit = slice src t.pos t.stop) ∧
+    ((t.kind = (codes cfg.d).STRING ∨ t.kind = (codes cfg.d).COMMENT) →
+      t.pos < t.stop ∧ TextCR t.lit (slice src t.pos t.stop)) ∧
+    (cfg.d = .xgo → t.kind = (codes cfg.d).CSTRING → t.pos + 1 < t.stop ∧ t.lit = slice src (t.pos + 1) t.stop) ∧
+    (cfg.d = .xgo → t.kind = (codes cfg.d).PYSTRING → t.pos + 2 < t.stop ∧ t.lit = slice src (t.pos + 2) t.stop) ∧
+    (isOpCode cfg.d t.kind = true → ¬(t.kind = (codes cfg.d).SEMICOLON ∧ t.lit = [0x0A]) →
+      t.pos < t.stop ∧ spelling cfg.d t.kind = some (slice src t.pos t.stop)) := by
+  have hok := C15_token_text cfg hd src t ht
+  -- reduce the codes of the dialect to numerals
+  have hkw : ∀ l, (codes cfg.d).keywords.lookup l = some t.kind → 60 < t.kind ∧ t.kind < 86 ∧ cfg.d = .xgo := by
+    intro l h
+    have := keyword_code_range cfg.d hd h
+    simpa [Tokens.XGo.keyword_beg, Tokens.XGo.keyword_end] using this
+  cases hdd : cfg.d with
+  | go => exact absurd hdd hd
+  | xgo =>
+    rw [hdd] at hok hkw
+    simp only [codes, xgoCodes, Tokens.XGo.IDENT, Tokens.XGo.INT, Tokens.XGo.FLOAT, Tokens.XGo.IMAG, Tokens.XGo.RAT,
+      Tokens.XGo.UNIT, Tokens.XGo.CHAR, Tokens.XGo.STRING, Tokens.XGo.COMMENT, Tokens.XGo.CSTRING, Tokens.XGo.PYSTRING,
+      Tokens.XGo.SEMICOLON, Tokens.XGo.ILLEGAL, Tokens.XGo.EOF, isOpCode, Tokens.XGo.isOperator, Bool.or_eq_true,
+      Bool.and_eq_true, decide_eq_true_eq] at hok hkw ⊢
+    cases hok with
+    | exact hk hne h =>
+      have hr : (t.kind = 4 ∨ t.kind = 5 ∨ t.kind = 6 ∨ t.kind = 7 ∨ t.kind = 10 ∨ t.kind = 91 ∨ t.kind = 8) ∨ (60 < t.kind ∧ t.kind < 86) := by
+        simp only [codes, xgoCodes, Tokens.XGo.IDENT, Tokens.XGo.INT, Tokens.XGo.FLOAT, Tokens.XGo.IMAG, Tokens.XGo.RAT,
+          Tokens.XGo.UNIT, Tokens.XGo.CHAR] at hk
+        rcases hk with h | h | h | h | h | h | h | ⟨l, h⟩
+        · left; omega
+        · left; omega
+        · left; omega
+        · left; omega
+        · left; omega
+        · left; omega
+        · left; omega
+        · right; exact ⟨(hkw l h).1, (hkw l h).2.1⟩
+      refine ⟨fun _ => ⟨hne, h⟩, ?_, ?_, ?_, ?_⟩
+      · intro h2; omega
+      · intro _ h2; omega
+      · intro _ h2; omega
+      · intro h2 _; omega
+    | text hk hne h =>
+      simp only [codes, xgoCodes, Tokens.XGo.STRING, Tokens.XGo.COMMENT] at hk
+      refine ⟨?_, fun _ => ⟨hne, h⟩, ?_, ?_, ?_⟩
+      · intro h2
+        rcases h2 with h2 | h2 | h2 | h2 | h2 | h2 | h2 | ⟨l, h2⟩
+        all_goals first | omega | (have := hkw l h2; omega)
+      · intro _ h2; omega
+      · intro _ h2; omega
+      · intro h2 _; omega
+    | prefixed _ n hk hne h =>
+      simp only [codes, xgoCodes, Tokens.XGo.CSTRING, Tokens.XGo.PYSTRING] at hk
+      refine ⟨?_, ?_, ?_, ?_, ?_⟩
+      · intro h2
+        rcases h2 with h2 | h2 | h2 | h2 | h2 | h2 | h2 | ⟨l, h2⟩
+        all_goals first | omega | (have := hkw l h2; omega)
+      · intro h2; omega
+      · intro _ h2
+        rcases hk with ⟨_, hn⟩ | ⟨hk, _⟩
+        · subst hn; exact ⟨hne, h⟩
+        · omega
+      · intro _ h2
+        rcases hk with ⟨hk, _⟩ | ⟨_, hn⟩
+        · omega
+        · subst hn; exact ⟨hne, h⟩
+      · intro h2 _; omega
+    | op hs hne hl hkne hop =>
+      simp only [isOpCode, Tokens.XGo.isOperator, Bool.or_eq_true, Bool.and_eq_true, decide_eq_true_eq] at hop
+      refine ⟨?_, ?_, ?_, ?_, fun _ _ => ⟨hne, hs⟩⟩
+      · intro h2
+        rcases h2 with h2 | h2 | h2 | h2 | h2 | h2 | h2 | ⟨l, h2⟩
+        all_goals first | omega | (have := hkw l h2; omega)
+      · intro h2; omega
+      · intro _ h2; omega
+      · intro _ h2; omega
+    | illegal hk hne =>
+      simp only [codes, xgoCodes, Tokens.XGo.ILLEGAL] at hk
+      refine ⟨?_, ?_, ?_, ?_, ?_⟩
+      · intro h2
+        rcases h2 with h2 | h2 | h2 | h2 | h2 | h2 | h2 | ⟨l, h2⟩
+        all_goals first | omega | (have := hkw l h2; omega)
+      · intro h2; omega
+      · intro _ h2; omega
+      · intro _ h2; omega
+      · intro h2 _; omega
+    | auto hk hw =>
+      simp only [codes, xgoCodes, Tokens.XGo.SEMICOLON, Tokens.XGo.EOF] at hk
+      refine ⟨?_, ?_, ?_, ?_, ?_⟩
+      · intro h2
+        rcases h2 with h2 | h2 | h2 | h2 | h2 | h2 | h2 | ⟨l, h2⟩
+        all_goals first | omega | (have := hkw l h2; omega)
+      · intro h2; omega
+      · intro _ h2; omega
+      · intro _ h2; omega
+      · intro h2 h3
+        rcases hk with hk | hk
+        · exact absurd hk h3
+        · omega
+  | tpl =>
+    rw [hdd] at hok hkw
+    have hnokw : ∀ l, ¬ ((codes Dialect.tpl).keywords.lookup l = some t.kind) := by
+      intro l h; simp [codes, tplCodes] at h
+    simp only [codes, tplCodes, Tokens.Tpl.IDENT, Tokens.Tpl.INT, Tokens.Tpl.FLOAT, Tokens.Tpl.IMAG, Tokens.Tpl.RAT,
+      Tokens.Tpl.UNIT, Tokens.Tpl.CHAR, Tokens.Tpl.STRING, Tokens.Tpl.COMMENT,
+      Tokens.Tpl.SEMICOLON, Tokens.Tpl.ILLEGAL, Tokens.Tpl.EOF, isOpCode, Tokens.Tpl.literal_end,
+      reduceCtorEq, false_implies, true_and, List.lookup_nil] at hok hkw hnokw ⊢
+    cases hok with
+    | exact hk hne h =>
+      have hr : t.kind = 4 ∨ t.kind = 5 ∨ t.kind = 6 ∨ t.kind = 7 ∨ t.kind = 10 ∨ t.kind = 11 ∨ t.kind = 8 := by
+        simp only [codes, tplCodes, Tokens.Tpl.IDENT, Tokens.Tpl.INT, Tokens.Tpl.FLOAT, Tokens.Tpl.IMAG, Tokens.Tpl.RAT,
+          Tokens.Tpl.UNIT, Tokens.Tpl.CHAR, List.lookup_nil] at hk
+        rcases hk with h | h | h | h | h | h | h | ⟨l, h⟩
+        all_goals first | omega | (cases h)
+      refine ⟨fun _ => ⟨hne, h⟩, ?_, ?_⟩
+      · intro h2; omega
+      · intro h2 _; have h2' := of_decide_eq_true h2; omega
+    | text hk hne h =>
+      simp only [codes, tplCodes, Tokens.Tpl.STRING, Tokens.Tpl.COMMENT] at hk
+      refine ⟨?_, fun _ => ⟨hne, h⟩, ?_⟩
+      · intro h2
+        rcases h2 with h2 | h2 | h2 | h2 | h2 | h2 | h2 | ⟨l, h2⟩
+        all_goals first | omega | (cases h2)
+      · intro h2 _; have h2' := of_decide_eq_true h2; omega
+    | prefixed hx _ _ _ _ => cases hx
+    | op hs hne hl hkne hop =>
+      have hop' : 12 < t.kind := of_decide_eq_true hop
+      refine ⟨?_, ?_, fun _ _ => ⟨hne, hs⟩⟩
+      · intro h2
+        rcases h2 with h2 | h2 | h2 | h2 | h2 | h2 | h2 | ⟨l, h2⟩
+        all_goals first | omega | (cases h2)
+      · intro h2; omega
+    | illegal hk hne =>
+      simp only [codes, tplCodes, Tokens.Tpl.ILLEGAL] at hk
+      refine ⟨?_, ?_, ?_⟩
+      · intro h2
+        rcases h2 with h2 | h2 | h2 | h2 | h2 | h2 | h2 | ⟨l, h2⟩
+        all_goals first | omega | (cases h2)
+      · intro h2; omega
+      · intro h2 _; have h2' := of_decide_eq_true h2; omega
+    | auto hk hw =>
+      simp only [codes, tplCodes, Tokens.Tpl.SEMICOLON, Tokens.Tpl.EOF] at hk
+      refine ⟨?_, ?_, ?_⟩
+      · intro h2
+        rcases h2 with h2 | h2 | h2 | h2 | h2 | h2 | h2 | ⟨l, h2⟩
+        all_goals first | omega | (cases h2)
+      · intro h2; omega
+      · intro h2 h3
+        have h2' := of_decide_eq_true h2
+        rcases hk with hk | hk
+        · exact absurd hk h3
+        · omega
+
+
+/-! ## Non-vacuity: concrete runs (kernel-evaluated) -/
+
+def noU : UCls := { isLetter := fun _ => false, isDigit := fun _ => false }
+
+/-- `x := 1km // c` + CR LF + `py"s" # d`: positions, spans, kinds and literals of the xgo run, comments on -/
+def ex1 : Array UInt8 :=
+  #[0x78, 0x20, 0x3A, 0x3D, 0x20, 0x31, 0x6B, 0x6D, 0x20, 0x2F, 0x2F, 0x20, 0x63, 0x0D, 0x0A,
+    0x70, 0x79, 0x22, 0x73, 0x22, 0x20, 0x23, 0x20, 0x64]
+
+example : (scan { d := .xgo, comments := true, noSemis := false, U := noU } ex1).status = .done ∧
+    ((scan { d := .xgo, comments := true, noSemis := false, U := noU } ex1).toks.map fun t => (t.pos, t.stop, t.kind)) =
+      [(0, 1, Tokens.XGo.IDENT), (2, 4, Tokens.XGo.DEFINE), (5, 6, Tokens.XGo.INT), (6, 8, Tokens.XGo.UNIT),
+       (9, 9, Tokens.XGo.SEMICOLON), (9, 14, Tokens.XGo.COMMENT), (15, 20, Tokens.XGo.PYSTRING),
+       (21, 21, Tokens.XGo.SEMICOLON), (21, 24, Tokens.XGo.COMMENT), (24, 24, Tokens.XGo.EOF)] := by
+  decide +kernel
+
+/-- the comment literal lost its carriage return: `TextCR` is strictly weaker than equality here -/
+example : ((scan { d := .xgo, comments := true, noSemis := false, U := noU } ex1).toks.map (·.lit))[5]? =
+    some [0x2F, 0x2F, 0x20, 0x63] := by decide +kernel
+
+/-- a source that starts with a BOM, contains a NUL and ends inside a comment: errors, no panic -/
+def ex2 : Array UInt8 := #[0xEF, 0xBB, 0xBF, 0x61, 0x00, 0x2F, 0x2A, 0x62]
+
+example : (scan { d := .xgo, comments := false, noSemis := false, U := noU } ex2).status = .done ∧
+    (initSt ex2).off = 3 ∧
+    (scan { d := .xgo, comments := false, noSemis := false, U := noU } ex2).errs.length = 3 := by
+  decide +kernel
+
+/-- the bound of `C15_token_count` is attained: `;;;` has three source-text tokens in three bytes -/
+example : ((scan { d := .xgo, comments := true, noSemis := false, U := noU } #[0x3B, 0x3B, 0x3B]).toks.filter
+    fun t => decide (t.pos < t.stop)).length = 3 := by decide +kernel
+
+/-- tpl: `1km x` -/
+example : ((scan { d := .tpl, comments := true, noSemis := false, U := noU } #[0x31, 0x6B, 0x6D, 0x20, 0x78]).toks.map
+    fun t => (t.pos, t.stop, t.kind)) =
+    [(0, 1, Tokens.Tpl.INT), (1, 3, Tokens.Tpl.UNIT), (4, 5, Tokens.Tpl.IDENT), (5, 5, Tokens.Tpl.SEMICOLON),
+     (5, 5, Tokens.Tpl.EOF)] := by decide +kernel
+
 end GopModel.Scan.C15
